@@ -97,7 +97,38 @@ fn alphabet() -> Vec<Rr> {
         r("x\\001z.y.", t::A, c::IN, 1, a1),       // sibling of the apex: label 'x' 01 'z'
         r("w.X\\001Z.y.", t::A, c::IN, 1, a1),     // below that sibling (would land at w.z.y.)
         r("x\\001z\\001y.", t::A, c::IN, 1, a1), // one label below the root
+        // less common types at one owner: RDATA that differ in one fixed field
+        // only (distinct records) and in the case of an embedded name only
+        // (one record), so that the type-specific equality decides what the
+        // store holds
+        r("_s._t.z.y.", t::SRV, c::IN, 1, &srv(1, 2, 5060, "t.z.y.")),
+        r("_s._t.z.y.", t::SRV, c::IN, 1, &srv(1, 2, 5061, "t.z.y.")), // port differs: a second record
+        r("_s._t.z.y.", t::SRV, c::IN, 1, &srv(1, 2, 5060, "T.Z.y.")), // equal to the first by case
+        r("_s._t.z.y.", t::SRV, c::IN, 1, &srv(1, 3, 5060, "t.z.y.")), // weight differs
+        r("m.z.y.", t::MX, c::IN, 1, &mx(10, "t.z.y.")),
+        r("m.z.y.", t::MX, c::IN, 1, &mx(11, "t.z.y.")), // preference differs
+        r("m.z.y.", t::MX, c::IN, 1, &mx(10, "T.z.Y.")), // equal to the first by case
+        r("m.z.y.", t::MINFO, c::IN, 1, &[wire::wname("r.z.y."), wire::wname("e.z.y.")].concat()),
+        r("m.z.y.", t::MINFO, c::IN, 1, &[wire::wname("R.z.y."), wire::wname("e.Z.y.")].concat()), // equal by case
+        r("m.z.y.", t::MINFO, c::IN, 1, &[wire::wname("r.z.y."), wire::wname("f.z.y.")].concat()),
+        r("m.z.y.", t::HINFO, c::IN, 1, b"\x03cpu\x02os"),
+        r("m.z.y.", t::HINFO, c::IN, 1, b"\x03CPU\x02os"), // HINFO compares octet-wise: a second record
     ]
+}
+
+fn srv(prio: u16, weight: u16, port: u16, target: &str) -> Vec<u8> {
+    let mut v = Vec::new();
+    for x in [prio, weight, port] {
+        v.extend_from_slice(&x.to_be_bytes());
+    }
+    v.extend_from_slice(&wire::wname(target));
+    v
+}
+
+fn mx(pref: u16, host: &str) -> Vec<u8> {
+    let mut v = pref.to_be_bytes().to_vec();
+    v.extend_from_slice(&wire::wname(host));
+    v
 }
 
 /// Sub-alphabets (indices into `alphabet()`) searched to closure.
@@ -106,10 +137,11 @@ fn sub_alphabets() -> Vec<(&'static str, Vec<usize>)> {
         ("tree shape: owners at depths 0-3, wildcard, case variants, empty non-terminals, rejected adds at missing nodes", vec![7, 8, 11, 16, 19, 21, 22, 23, 24, 25, 26, 30, 32, 33, 34, 35, 38, 39]),
         ("RRsets: SOA/NS/A/TXT at the apex and one child, equal-by-case RDATA, TTL conflicts in either order", vec![0, 1, 2, 3, 4, 5, 6, 7, 8, 9, 10, 11, 12, 13, 14, 15, 31]),
         ("mixed: apex SOA/NS plus depth, TTL conflicts below empty non-terminals", vec![0, 2, 3, 4, 6, 8, 10, 16, 17, 18, 19, 20, 21, 24, 33, 36]),
+        ("less common types: SRV / MX / MINFO / HINFO records that differ in one fixed field or in name case only", vec![40, 41, 42, 43, 44, 45, 46, 47, 48, 49, 50, 51]),
     ]
 }
 
-const LOOKUP_TYPES: [u16; 5] = [t::A, t::NS, t::SOA, t::TXT, t::CNAME];
+const LOOKUP_TYPES: [u16; 9] = [t::A, t::NS, t::SOA, t::TXT, t::CNAME, t::SRV, t::MX, t::MINFO, t::HINFO];
 
 /// Names looked up around every history, besides the model's nodes.
 fn probe_names(alpha: &[Rr]) -> Vec<WName> {
